@@ -21,6 +21,16 @@ P = {
  "C14": ("proof", "13 laws + complement as `==` of the returned objects, each an instance of the closure/uniqueness theorems over the regenerated model "
          "(specifier part: proof). Marker part: equivalence of both sides on environment grids by the direct oracle only (marker normaliser model pending).",
          TB_PROOF + "; marker part: " + TB_ORACLE, "machine-checked proof in Coq (specifiers) + differential oracle (markers)", "5"),
+ "C13": ("proof", "Specifier part: C13_refl/sym/trans/total/hash/congr over the regenerated model (generated dataclass ==, Any/Empty __eq__, reflected dispatch, generated hash keys incl. "
+         "the two spellings of the universal set): == is an equivalence on canonical values, equal objects have equal hash keys, and equal operands give equal results for every operator and side. "
+         "Marker part (atoms differing in operand order / value order / caches): direct oracle only.",
+         TB_PROOF + "; hash() is modelled as a function of the generated hash key (S-gen compares key equality with observed hash equality); marker part: " + TB_ORACLE,
+         "machine-checked proof in Coq (specifiers) + differential oracle (markers)", "5"),
+ "C09": ("proof", "C09_manylinux/musl/mac_x86/mac_arm64/win/score for ALL target versions by induction over the descending ranges (not only the grid), C09_order_grid as a computed sweep over the "
+         "property's whole grid, C09_mac_arm64_10_refuted as the machine-checked witness of the recorded finding; Model/Platform.v is tied to platform.py by the S-plat stream, which is EXHAUSTIVE over the "
+         "property's configuration grid, and the direct oracle compares every list with an independent rule oracle and with packaging.tags (probes stubbed).",
+         "trusted: Coq kernel (closed under the global context; vm_compute for the finite sweep); the hand model is tied to the code by the exhaustive correspondence; packaging.tags as the order reference",
+         "machine-checked proof in Coq over a hand model + correspondence exhaustive on the property's domain", "5"),
  "C19": ("proof", "C19_and/or/inv/dispatch for ALL strings over Model/Generic.v (hand model of generic.py, tied by the exhaustive S-generic stream over 8 operators x a "
          "literal pool closed under the relations the case table inspects); Empty/Any membership is the regenerated special.py.",
          "trusted: Coq kernel (closed under the global context); the hand model is tied to generic.py only by the exhaustive correspondence stream; translator for special.py",
@@ -33,11 +43,9 @@ ORACLE_ONLY = {
  "C06": "str() never raises and parse(str(s)) == s over parsed specifiers and &,|,~ trees",
  "C07": "str(m) accepted by parse_marker and packaging, re-parsed marker evaluates identically; <empty>/'' specials",
  "C08": "python/abi compatibility vs 'some admitted interpreter can load it' over the tag universe x requires_python grid",
- "C09": "full tag lists vs an independent PEP 600/656/macOS rule oracle and vs packaging.tags (probes stubbed), exhaustive over the property's grid",
  "C10": "rendered text and truth table of a probe after a random history vs the same probe run first in a fresh interpreter",
  "C11": "specifier view of python_version/python_full_version atoms and from_specifier round trip vs packaging over an interpreter grid",
  "C12": "only()/exclude()/without_extras(): leaked variables, implication, identity on environment grids",
- "C13": "reflexivity, symmetry, transitivity, hash agreement, interchangeability for specifier and marker objects",
  "C15": "normal-form checker on every result of parse/&/|/only/exclude",
  "C16": "widening requires_python / platform never loses wheels or tags; compare() reflexive, INCOMPATIBLE symmetric, nesting consistent",
  "C17": "parser acceptance vs packaging's SpecifierSet per ||-alternative; only InvalidSpecifier may be raised; from_specifierset never raises",
